@@ -725,12 +725,14 @@ class Message:
         if parsed.username or parsed.password or "@" in parsed.netloc:
             raise error.MalformedUrlError("User name and password not supported.")
 
+        path = _remove_dot_segments(parsed.path)
+
         try:
-            if parsed.path not in ("", "/"):
+            if path not in ("", "/"):
                 # FIXME: This tolerates incomplete % sequences.
                 self.opt.uri_path = [
                     urllib.parse.unquote(x, errors="strict")
-                    for x in parsed.path.split("/")[1:]
+                    for x in path.split("/")[1:]
                 ]
             else:
                 self.opt.uri_path = []
@@ -890,6 +892,31 @@ class UndecidedRemote(
 
 
 _ascii_lowercase = str.maketrans(string.ascii_uppercase, string.ascii_lowercase)
+
+
+def _remove_dot_segments(path: str) -> str:
+    """Remove "." and ".." segments from an absolute path as per RFC 3986
+    Section 5.2.4
+
+    >>> _remove_dot_segments("/a/b/../c/./d")
+    '/a/c/d'
+    >>> _remove_dot_segments("/a/..")
+    '/'
+    """
+    if not path.startswith("/"):
+        return path
+    segments = path.split("/")[1:]
+    output = []
+    for i, segment in enumerate(segments):
+        if segment in (".", ".."):
+            if segment == ".." and output:
+                output.pop()
+            if i == len(segments) - 1:
+                output.append("")
+            continue
+        output.append(segment)
+    return "/" + "/".join(output)
+
 
 _quote_for_host = quote_factory(unreserved + sub_delims)
 _quote_for_path = quote_factory(unreserved + sub_delims + ":@")
